@@ -292,7 +292,10 @@ theorem blockLength_inv (env : Env) (s : State) (hash : Bytes) (d : Bool) (h : I
 theorem reopen_fs_idx (env : Env) (fs : FS) (o : Opts) : (reopen env fs o).1.fs.idx = fs.idx := by
   unfold reopen
   simp only [loadCleanup_idx]
-  split <;> rfl
+  unfold createCur
+  split
+  · rfl
+  · split <;> rfl
 
 /-- after NewBlockDBExt + LoadBlockIndex (fixed code) the append position is the end of the index file -/
 theorem reopen_inv (env : Env) (hadv : env.advInvalid = true) (fs : FS) (o : Opts) (hm : fs.idx.length % 136 = 0) :
